@@ -214,4 +214,5 @@ class Context(object):
                 fn()
         finally:
             # Remove self from the stack
-            assert self.stack.pop() is self
+            popped = self.stack.pop()
+            assert popped is self
